@@ -1,3 +1,207 @@
-From Burrow Require Import Tmpl Json.
+(* C20 — Notification templates render for every status.
+   Statements only; proofs are in TmplProofs.v and JsonProofs.v.  Models: Tmpl.v (text/template subset, schema typing),
+   Json.v (encoding/json's scanner as a pushdown recogniser, pieces with holes, abstract run of a template), tied to
+   core/internal/notifier/helpers.go and config/*.tmpl by (a) the tables BurrowGen.TmplSchema / BurrowGen.Templates,
+   regenerated from /repo by translator/tmpl on every run, on which the obligations C20_table_* below are re-checked,
+   and (b) the probe of checks/c20.py (real template.ParseFiles + executeTemplate + json.Valid against Tmpl.exec /
+   Json.pieces_valid on generated statuses). *)
+From Coq Require Import ZArith List String.
+From Burrow Require Import Tmpl TmplProofs Json JsonProofs.
+From Burrow Require F32 Eval.
 From BurrowGen Require Import TmplSchema Templates.
-Example placeholder_C20 : offers burrow_schema = true. Proof. vm_compute. reflexivity. Qed.
+Import ListNotations.
+Open Scope string_scope.
+
+(* ------------------------------------------------------------------------------------------------------------ *)
+(* Once and for all                                                                                              *)
+(* ------------------------------------------------------------------------------------------------------------ *)
+
+(* A template accepted by the static checker renders without error on every value of the schema that satisfies the
+   non-nil facts: any status value, any number of partitions, Maxlag nil or not, commit lags nil or not. *)
+Theorem C20_typecheck_sound : forall sch t facts,
+  typecheck sch t facts = true ->
+  forall d, has_schema sch d -> satisfies facts d = true -> exists out, exec sch t d = Ok out.
+Proof. exact typecheck_sound. Qed.
+Print Assumptions C20_typecheck_sound.
+
+(* What the evaluator hands to a notifier (the problems-only view of evaluateConsumerStatus' result): every listed
+   partition carries its first and last commit (Start / End non-nil).  Maxlag is unconstrained (nil, or an unlisted
+   OK partition without commits). *)
+Theorem C20_listed_partitions_have_ends : forall ts minimum allowed now g,
+  Eval.eval_group ts minimum allowed now = Eval.Ok g ->
+  Forall (fun s => Eval.ps_start s <> None /\ Eval.ps_end s <> None) (Eval.gs_partitions (Eval.filter_view g)).
+Proof. exact listed_partitions_have_ends. Qed.
+Print Assumptions C20_listed_partitions_have_ends.
+
+(* facts_hold: the non-nil facts used by the checker hold of the data executeTemplate builds from any such reply
+   (for any cluster / group / event id / extras and any naming of topics, owners, clients) *)
+Theorem C20_facts_hold : forall ts minimum allowed now g,
+  Eval.eval_group ts minimum allowed now = Eval.Ok g ->
+  forall sch nm cl gr id ex,
+    satisfies burrow_facts (data_of sch nm cl gr id ex (Eval.filter_view g)) = true.
+Proof. exact facts_hold. Qed.
+Print Assumptions C20_facts_hold.
+
+(* ... and that data is a value of the schema, whenever the Go structs can hold what the evaluator produces *)
+Theorem C20_data_has_schema : forall sch nm, embed_ok sch = true ->
+  forall cl gr id ex g, has_schema sch (data_of sch nm cl gr id ex g).
+Proof. exact data_has_schema. Qed.
+Print Assumptions C20_data_has_schema.
+
+(* data_offers: the six documented fields can be read off every data value with the documented types, and the nine
+   documented helpers are in the FuncMap under their names with the documented signatures *)
+Theorem C20_data_offers : forall sch, offers sch = true ->
+  (forall f t, In (f, t) documented_fields ->
+     forall d, has_schema sch d -> exists x, eval_chain0 sch d [f] = Ok x /\ type_of x = t /\ wt sch x = true) /\
+  (forall h, In h documented_helpers ->
+     exists fn sg, assoc h (sch_funcs sch) = Some sg /\ helper_of h = Some fn /\
+                   fsig_eqb sg (helper_sig fn) = true /\ resolve_fn sch h = Some fn).
+Proof. exact data_offers. Qed.
+Print Assumptions C20_data_offers.
+
+(* If the recogniser accepts a list of pieces it accepts every text they stand for: string holes filled with
+   JSON-string-safe text, number holes with JSON number literals, value holes with texts json.Valid accepts. *)
+Theorem C20_pieces_wellformed : forall ps s, pieces_valid ps = true -> inst ps s -> json_valid s = true.
+Proof. exact pieces_wellformed. Qed.
+Print Assumptions C20_pieces_wellformed.
+
+(* what Go prints for integers and finite floats is such a number literal *)
+Theorem C20_go_number_is_number : forall t, go_number t -> is_number t = true.
+Proof. exact go_number_is_number. Qed.
+Print Assumptions C20_go_number_is_number.
+
+(* json_wellformed: if the abstract run of a template over the recogniser is accepted, every rendering for JSON-safe
+   data is well-formed JSON: all statuses, any number of partitions (range bodies return to the state they started
+   in), both branches of every if *)
+Theorem C20_json_wellformed : forall sch facts t,
+  json_skeleton_ok sch facts t = true ->
+  forall d, has_schema sch d -> satisfies facts d = true -> safe_val d = true ->
+  forall out s, exec sch t d = Ok out -> inst out s -> json_valid s = true.
+Proof. exact json_wellformed. Qed.
+Print Assumptions C20_json_wellformed.
+
+(* ------------------------------------------------------------------------------------------------------------ *)
+(* Per run, on the tables regenerated from /repo                                                                *)
+(* ------------------------------------------------------------------------------------------------------------ *)
+
+Theorem C20_table_offers : offers burrow_schema = true.
+Proof. vm_compute. reflexivity. Qed.
+
+Theorem C20_table_embed : embed_ok burrow_schema = true.
+Proof. vm_compute. reflexivity. Qed.
+
+Theorem C20_table_email_renders : typecheck burrow_schema (lookup_tmpl all_templates "default-email.tmpl") burrow_facts = true.
+Proof. vm_compute. reflexivity. Qed.
+Theorem C20_table_http_post_renders : typecheck burrow_schema (lookup_tmpl all_templates "default-http-post.tmpl") burrow_facts = true.
+Proof. vm_compute. reflexivity. Qed.
+Theorem C20_table_http_delete_renders : typecheck burrow_schema (lookup_tmpl all_templates "default-http-delete.tmpl") burrow_facts = true.
+Proof. vm_compute. reflexivity. Qed.
+Theorem C20_table_slack_post_renders : typecheck burrow_schema (lookup_tmpl all_templates "default-slack-post.tmpl") burrow_facts = true.
+Proof. vm_compute. reflexivity. Qed.
+Theorem C20_table_slack_delete_renders : typecheck burrow_schema (lookup_tmpl all_templates "default-slack-delete.tmpl") burrow_facts = true.
+Proof. vm_compute. reflexivity. Qed.
+(* every template file found in config/, whatever its name *)
+Theorem C20_table_all_render : forallb (fun p => typecheck burrow_schema (snd p) burrow_facts) all_templates = true.
+Proof. vm_compute. reflexivity. Qed.
+
+Theorem C20_table_http_post_json : json_skeleton_ok burrow_schema burrow_facts (lookup_tmpl all_templates "default-http-post.tmpl") = true.
+Proof. vm_compute. reflexivity. Qed.
+Theorem C20_table_http_delete_json : json_skeleton_ok burrow_schema burrow_facts (lookup_tmpl all_templates "default-http-delete.tmpl") = true.
+Proof. vm_compute. reflexivity. Qed.
+Theorem C20_table_slack_post_json : json_skeleton_ok burrow_schema burrow_facts (lookup_tmpl all_templates "default-slack-post.tmpl") = true.
+Proof. vm_compute. reflexivity. Qed.
+Theorem C20_table_slack_delete_json : json_skeleton_ok burrow_schema burrow_facts (lookup_tmpl all_templates "default-slack-delete.tmpl") = true.
+Proof. vm_compute. reflexivity. Qed.
+Theorem C20_table_json : forallb (fun n => json_skeleton_ok burrow_schema burrow_facts (lookup_tmpl all_templates n))
+    ["default-http-post.tmpl"; "default-http-delete.tmpl"; "default-slack-post.tmpl"; "default-slack-delete.tmpl"] = true.
+Proof. vm_compute. reflexivity. Qed.
+
+(* ------------------------------------------------------------------------------------------------------------ *)
+(* The property, for the templates shipped in this tree                                                          *)
+(* ------------------------------------------------------------------------------------------------------------ *)
+
+(* every shipped template renders without error for every status the evaluator can hand to a notifier, open or close *)
+Theorem C20_shipped_templates_render : forall name t, In (name, t) all_templates ->
+  forall ts minimum allowed now g, Eval.eval_group ts minimum allowed now = Eval.Ok g ->
+  forall nm cl gr id ex, exists out, exec burrow_schema t (data_of burrow_schema nm cl gr id ex (Eval.filter_view g)) = Ok out.
+Proof. exact (shipped_render burrow_schema all_templates C20_table_embed C20_table_all_render). Qed.
+Print Assumptions C20_shipped_templates_render.
+
+(* the shipped HTTP and Slack templates render to well-formed JSON for JSON-safe names.
+   Full statement: as below without the finiteness conjuncts of group_safe.
+   _partial: group_safe also asks for finite completeness ratios; the evaluator only divides by positive counts
+   (caching.go:246-250, 295), deriving finiteness from Eval.v (Flocq division) is not done. *)
+Theorem C20_shipped_json_partial : forall name,
+  In name ["default-http-post.tmpl"; "default-http-delete.tmpl"; "default-slack-post.tmpl"; "default-slack-delete.tmpl"] ->
+  forall ts minimum allowed now g, Eval.eval_group ts minimum allowed now = Eval.Ok g ->
+  forall nm cl gr id ex,
+    safe_string cl = true -> safe_string gr = true -> safe_string id = true ->
+    forallb (fun kv => safe_string (snd kv)) ex = true -> group_safe nm (Eval.filter_view g) = true ->
+    forall out s,
+      exec burrow_schema (lookup_tmpl all_templates name) (data_of burrow_schema nm cl gr id ex (Eval.filter_view g)) = Ok out ->
+      inst out s -> json_valid s = true.
+Proof. exact (shipped_json_partial burrow_schema all_templates _ C20_table_embed C20_table_json). Qed.
+Print Assumptions C20_shipped_json_partial.
+
+(* ------------------------------------------------------------------------------------------------------------ *)
+(* Non-vacuity                                                                                                   *)
+(* ------------------------------------------------------------------------------------------------------------ *)
+
+(* a group with two stalled partitions and one healthy one: the evaluator's reply lists two problem partitions;
+   every shipped template renders for it and the HTTP/Slack ones give pieces the recogniser accepts *)
+Open Scope Z_scope.
+Definition ex_stalled : Eval.cpart :=
+  (Eval.mkCpart [Some (Eval.mkCoff 10 1 1000 (Some 5)); Some (Eval.mkCoff 10 2 2000 (Some 5))] [30%Z] 1 1 20).
+Definition ex_ok : Eval.cpart :=
+  (Eval.mkCpart [None; Some (Eval.mkCoff 10 1 1000 (Some 0))] [10%Z] 0 0 0).
+Definition ex_nm (z : Z) : string := if (z =? 1)%Z then "orders" else "".
+
+Example C20_ex_two_problem_partitions_render :
+  match Eval.eval_group [(1%Z, [ex_stalled; ex_ok; ex_stalled])] F32.f32_zero 0 3 with
+  | Eval.Ok g =>
+      let d := data_of burrow_schema ex_nm "kafka-1" "billing" "3a8c9f6e" [("api_key", "k"); ("app", "burrow")] (Eval.filter_view g) in
+      List.length (Eval.gs_partitions (Eval.filter_view g)) = 2%nat /\
+      has_schema burrow_schema d /\ satisfies burrow_facts d = true /\ safe_val d = true /\
+      forallb (fun p => match exec burrow_schema (snd p) d with Ok _ => true | Err _ => false end) all_templates = true /\
+      forallb (fun n => match exec burrow_schema (lookup_tmpl all_templates n) d with Ok out => pieces_valid out | Err _ => false end)
+        ["default-http-post.tmpl"; "default-http-delete.tmpl"; "default-slack-post.tmpl"; "default-slack-delete.tmpl"] = true
+  | Eval.Crash => False
+  end.
+Proof. vm_compute. repeat split. Qed.
+
+(* a template with a misspelt field (the defect F11, repaired in /repo by 3f5942d) is rejected by the checker and
+   really fails in exec, on every data value of the schema *)
+Example C20_ex_misspelt_field_rejected :
+  let bad := [NText "{""ids"":["""; NAction [CArgs (AField ["Id"]) []]; NText """]}"] in
+  typecheck burrow_schema bad burrow_facts = false /\
+  json_skeleton_ok burrow_schema burrow_facts bad = false /\
+  match Eval.eval_group [(1%Z, [ex_stalled])] F32.f32_zero 0 3 with
+  | Eval.Ok g => exec burrow_schema bad (data_of burrow_schema ex_nm "c" "g" "i" [] (Eval.filter_view g)) = Err "can't evaluate field"
+  | Eval.Crash => False
+  end.
+Proof. vm_compute. repeat split. Qed.
+
+(* a field of a pointer that may be nil, without a guard, is rejected; Maxlag is nil for a group without partitions *)
+Example C20_ex_unguarded_maxlag_rejected :
+  let bad := [NAction [CArgs (AField ["Result"; "Maxlag"; "Topic"]) []]] in
+  typecheck burrow_schema bad burrow_facts = false /\
+  match Eval.eval_group [] F32.f32_zero 0 3 with
+  | Eval.Ok g => exec burrow_schema bad (data_of burrow_schema ex_nm "c" "g" "i" [] (Eval.filter_view g)) = Err "nil pointer evaluating field"
+  | Eval.Crash => False
+  end.
+Proof. vm_compute. repeat split. Qed.
+
+(* holes filled the way Go fills them: a concrete rendering of the close template is accepted by json_valid, and an
+   unsafe name is exactly what breaks it (outside the property's promise) *)
+Example C20_ex_instance :
+  inst [Lit "{""id"":"""; Lit "3a8c"; Lit """,""lag"":"; NumHole; Lit ",""t"":"""; StrHole; Lit """,""p"":"; ValHole; Lit "}"]
+       ("{""id"":""" ++ "3a8c" ++ """,""lag"":" ++ "-12.5e+07" ++ ",""t"":""" ++ "Jan 02, 2006" ++ """,""p"":" ++ "[{""a"":null}]" ++ "}" ++ "") /\
+  go_number "-12.5e+07" /\
+  json_valid "{""id"":""3a8c"",""lag"":-12.5e+07,""t"":""Jan 02, 2006"",""p"":[{""a"":null}]}" = true /\
+  json_valid "{""id"":""3a""8c""}" = false /\ safe_string "3a""8c" = false.
+Proof.
+  split; [|split; [|vm_compute; repeat split]].
+  - repeat (first [apply inst_lit | apply inst_num; [reflexivity|] | apply inst_str; [reflexivity|]
+                  | apply inst_val; [reflexivity|] | apply inst_nil]).
+  - exact (gn_make true "12" (Some "5") (Some (true, "07")) eq_refl eq_refl eq_refl).
+Qed.
